@@ -432,6 +432,9 @@ func (s *authzServer) validateAuthorizationCredentials(context *validationContex
 	// also add all cred IDs to validationContext
 	context.credentialIDs = make([]string, len(vcs))
 	for i, vc := range vcs {
+		if vc.ID == nil {
+			return fmt.Errorf(errInvalidVCClaim, errors.New("credential is missing an ID"))
+		}
 		context.credentialIDs[i] = vc.ID.String()
 		if vc.IsType(*credential.NutsAuthorizationCredentialTypeURI) {
 			vcs[j] = vc
